@@ -128,7 +128,8 @@ aux = tag('aux')
 
 
 class SpecFn:
-    def __init__(self, fn, opaque=False):
+    def __init__(self, fn, opaque=False, inline=False):
+        self.inline = inline     # non-recursive definition: expanded at every use (a macro)
         self.fn = fn
         self.name = fn.__name__
         self.node = _fundef_of(fn)
@@ -138,9 +139,9 @@ class SpecFn:
         self.opaque = opaque
 
 
-def spec(fn=None, *, opaque=False):
+def spec(fn=None, *, opaque=False, inline=False):
     def deco(f):
-        s = SpecFn(f, opaque=opaque)
+        s = SpecFn(f, opaque=opaque, inline=inline)
         SPECS[f.__name__] = s
         f._spec = s
         return f
@@ -214,6 +215,12 @@ def unfold(fn, *args):
     """hint: one instance of the definition of spec function fn at args (valid by definition).
     Natively a no-op; the prover assumes  fn(args) == body[args]."""
     return True
+
+
+def the(x):
+    """the value of an Optional that is known not to be None (natively the identity)"""
+    assert x is not None
+    return x
 
 
 def resolve_qualname(qualname: str):
